@@ -616,6 +616,39 @@ fn check_compressor(ctx: &mut Ctx, idx: u64, r: &mut Rng) -> Option<(String, J)>
 			}
 		}
 	}
+	// (b2) the attack time given as a link to a modulator, through a mapping whose output range runs from a long to a short
+	// duration or the other way round; the modulator rests at m: the attack time is the point m of the way between the two
+	if r.chance(0.3) {
+		use kira::effect::compressor::CompressorBuilder;
+		use kira::effect::EffectBuilder;
+		use std::time::Duration;
+		let (long, short) = (r.f64_in(0.05, 0.2), r.f64_in(0.005, 0.02));
+		let (d0, d1) = if r.chance(0.6) { (long, short) } else { (short, long) };
+		let m = r.f64_in(0.2, 0.9);
+		let mut ib = kira::info::MockInfoBuilder::new();
+		let id = ib.add_modulator(m);
+		let info = ib.build();
+		let link = kira::Value::FromModulator { id, mapping: kira::Mapping { input_range: (0.0, 1.0), output_range: (Duration::from_secs_f64(d0), Duration::from_secs_f64(d1)), easing: kira::Easing::Linear } };
+		let (mut fx, _h) = CompressorBuilder::new().threshold(-30.0).ratio(8.0).attack_duration(link).release_duration(Duration::from_secs(2)).mix(kira::Mix::WET).build();
+		fx.init(sr, 128);
+		let want = d0 + (d1 - d0) * m;
+		let n = (want * 10.0 * sr as f64) as usize + 400;
+		let mut y = vec![Frame::from_mono(0.5); n];
+		let mut pos = 0;
+		while pos < n {
+			let k = 128.min(n - pos);
+			fx.on_start_processing();
+			fx.process(&mut y[pos..pos + k], 1.0 / sr as f64, &info);
+			pos += k;
+		}
+		let red: Vec<f64> = y.iter().map(|f| db(f.left as f64 / 0.5)).collect();
+		let last = red[n - 1];
+		let t63 = red.iter().position(|x| *x <= 0.632 * last).unwrap_or(n) as f64 / sr as f64;
+		ctx.count("compressor_mapped_attack_time_checks", 1);
+		if last > -10.0 || (t63 - want).abs() > 0.06 * want + 3.0 / sr as f64 {
+			return Some((format!("compressor whose attack time is mapped from a modulator through {:.4} s .. {:.4} s, modulator at {:.3} (attack {:.4} s): 63 % of the final reduction ({:.2} dB) is reached after {:.4} s (sr {})", d0, d1, m, want, last, t63, sr), detail(&spec, sr, "attack time from a mapping")));
+		}
+	}
 	// (c) attack / release shorter than one sample period (0 or a microsecond): the attenuation follows the level at once
 	if r.chance(0.4) && want_ss.abs() > 0.5 {
 		let tiny = *r.pick(&[0.0f64, 1e-6, 2e-6]);
